@@ -1,3 +1,4 @@
+import Fpdec.Kernels.Misc
 import Fpdec.Kernels.IntoFloat
 import Fpdec.Lemmas.IntoFloat
 import Fpdec.Lemmas.IntoFloatNearest
@@ -60,5 +61,11 @@ theorem kernel_f32_from_decimal (prof : Profile) (d : Dec) :
     Gen.K.f32_from_decimal prof d = fromDecimal prof Spec.FloatFmt.f32 d := Kernels.f32_from_decimal_eq prof d
 theorem kernel_n_signif_bits (prof : Profile) (v : Nat) : Gen.K.n_signif_bits prof v = .ok (nSignifBits v) :=
   Kernels.n_signif_bits_eq prof v
+
+/-- `impl From<Decimal> for f64 / f32`: the integral shortcut (`i128 as fN`, assumed RNE) or `Float::from_decimal` -/
+theorem kernel_f64_from (prof : Profile) (d : Dec) : Gen.K.f64_from prof d = intoFloat prof Spec.FloatFmt.f64 d :=
+  Kernels.f64_from_eq prof d
+theorem kernel_f32_from (prof : Profile) (d : Dec) : Gen.K.f32_from prof d = intoFloat prof Spec.FloatFmt.f32 d :=
+  Kernels.f32_from_eq prof d
 
 end Fpdec.Props.C12
